@@ -1,7 +1,404 @@
-(* Proofs about await_sync / aiter_sync (property C05). *)
+(* Proofs about await_sync / aiter_sync (property C05) and about the future
+   handshake flag around CoroStart (finding F1).  Everything is for all trees
+   (all coroutine bodies), all stores and all future worlds. *)
 From Asynkit Require Import Base.Prelude Coro.Tree Coro.Native Coro.TreeProofs Coro.AwaitSync.
 
+Definition no_susp (st : stop) : Prop :=
+  match st with SSusp _ _ => False | _ => True end.
+
+(* ------------------------------------------------ running through an await *)
+Lemma run_await_ret : forall kd c kr ke s evs s' v,
+  run s c = (evs, s', SRet v) ->
+  run s (await_ kd c kr ke) =
+  let '(e2, s2, st2) := run s' (kr v) in (evs ++ e2, s2, st2).
+Proof.
+  induction c as [v0|e0|ev c IH|x g IH|x v0 c IH|y g IH]; intros kr ke s evs s' v H; simpl in *.
+  - inversion H; subst. destruct (run s' (kr v)) as [[e2 s2] st2]. reflexivity.
+  - discriminate.
+  - destruct (run s c) as [[e1 s1] st1] eqn:Hc. inversion H; subst.
+    rewrite (IH kr ke s e1 s' v Hc). destruct (run s' (kr v)) as [[e2 s2] st2]. reflexivity.
+  - apply IH; assumption.
+  - apply IH; assumption.
+  - discriminate.
+Qed.
+
+Lemma run_await_raise : forall kd c kr ke s evs s' e,
+  run s c = (evs, s', SRaise e) ->
+  run s (await_ kd c kr ke) =
+  let '(e2, s2, st2) := run s' (ke (pep479 kd e)) in (evs ++ e2, s2, st2).
+Proof.
+  induction c as [v0|e0|ev c IH|x g IH|x v0 c IH|y g IH]; intros kr ke s evs s' e H; simpl in *.
+  - discriminate.
+  - inversion H; subst. destruct (run s' (ke (pep479 kd e))) as [[e2 s2] st2]. reflexivity.
+  - destruct (run s c) as [[e1 s1] st1] eqn:Hc. inversion H; subst.
+    rewrite (IH kr ke s e1 s' e Hc). destruct (run s' (ke (pep479 kd e))) as [[e2 s2] st2].
+    reflexivity.
+  - apply IH; assumption.
+  - apply IH; assumption.
+  - discriminate.
+Qed.
+
+Lemma run_await_susp : forall kd c kr ke s evs s' y k,
+  run s c = (evs, s', SSusp y k) ->
+  exists k', run s (await_ kd c kr ke) = (evs, s', SSusp y k').
+Proof.
+  induction c as [v0|e0|ev c IH|x g IH|x v0 c IH|y0 g IH]; intros kr ke s evs s' y k H; simpl in *.
+  - discriminate.
+  - discriminate.
+  - destruct (run s c) as [[e1 s1] st1] eqn:Hc. inversion H; subst.
+    destruct (IH kr ke s e1 s' y k Hc) as [k' Hk']. rewrite Hk'. eexists; reflexivity.
+  - eapply IH; eassumption.
+  - eapply IH; eassumption.
+  - inversion H; subst. eexists; reflexivity.
+Qed.
+
+(* a body which does not suspend runs alike under any number of native awaits *)
+Lemma run_native_await_ret : forall c s evs s' v,
+  run s c = (evs, s', SRet v) -> run s (native_await c) = (evs, s', SRet v).
+Proof.
+  intros c s evs s' v H. unfold native_await. rewrite (run_await_ret _ _ _ _ _ _ _ _ H). simpl.
+  rewrite app_nil_r. reflexivity.
+Qed.
+
+Lemma run_native_await_raise : forall c s evs s' e,
+  run s c = (evs, s', SRaise e) -> run s (native_await c) = (evs, s', SRaise (pep479 KCoro e)).
+Proof.
+  intros c s evs s' e H. unfold native_await. rewrite (run_await_raise _ _ _ _ _ _ _ _ H). simpl.
+  rewrite app_nil_r. reflexivity.
+Qed.
+
+(* ------------------------------------------------------- C05_sync_complete *)
+(* The reference is the native protocol: coro.send(None) on the new coroutine
+   object (Tree.co_send). *)
+Theorem sync_complete : forall fixd w s c,
+  no_susp (snd (run s c)) ->
+  let n := co_send KCoro (New c) s VNone in
+  let r := await_sync fixd w s c in
+  sr_events r = r_events n /\ sr_store r = r_store n /\
+  sr_obj r = Finished /\ r_obj n = Finished /\
+  sr_world r = w /\
+  match r_out n with
+  | OReturn v => sr_out r = SyValue v
+  | ORaise e => sr_out r = SyRaise e
+  | OYield _ => False
+  end.
+Proof.
+  intros fixd w s c H. unfold await_sync. simpl.
+  destruct (run s c) as [[evs s'] st] eqn:Hr. simpl in H.
+  destruct st as [v|e|y k]; simpl; try contradiction; repeat split; reflexivity.
+Qed.
+
+Example sync_complete_ex :
+  sr_out (await_sync true world0 []
+            (native_await (native_await (Eff (ELog 1) (Ret (VInt 5)))))) = SyValue (VInt 5).
+Proof. reflexivity. Qed.
+
+Fixpoint nest (d : nat) (c : coro) : coro :=
+  match d with O => c | S d' => native_await (nest d' c) end.
+
+Lemma await_sync_native_await : forall fixd w s c,
+  no_susp (snd (run s c)) ->
+  await_sync fixd w s (native_await c) = await_sync fixd w s c.
+Proof.
+  intros fixd w s c H. unfold await_sync.
+  destruct (run s c) as [[evs s'] st] eqn:Hr. simpl in H.
+  destruct st as [v|e|y k]; try contradiction.
+  - rewrite (run_native_await_ret _ _ _ _ _ Hr). reflexivity.
+  - rewrite (run_native_await_raise _ _ _ _ _ Hr). rewrite pep479_idem. reflexivity.
+Qed.
+
+Lemma no_susp_native_await : forall s c,
+  no_susp (snd (run s c)) -> no_susp (snd (run s (native_await c))).
+Proof.
+  intros s c H. destruct (run s c) as [[evs s'] st] eqn:Hr. simpl in H.
+  destruct st as [v|e|y k]; try contradiction.
+  - rewrite (run_native_await_ret _ _ _ _ _ Hr). exact I.
+  - rewrite (run_native_await_raise _ _ _ _ _ Hr). exact I.
+Qed.
+
+(* however deeply the coroutine is awaited by other non-suspending coroutines *)
+Theorem sync_complete_nested : forall d fixd w s c,
+  no_susp (snd (run s c)) ->
+  await_sync fixd w s (nest d c) = await_sync fixd w s c.
+Proof.
+  induction d as [|d IH]; intros fixd w s c H; simpl; auto.
+  rewrite await_sync_native_await.
+  - apply IH; assumption.
+  - clear IH. induction d as [|d IHd]; simpl; auto using no_susp_native_await.
+Qed.
+
+(* ------------------------------------------------------------ C05_blocking *)
+(* The reference is the native protocol: coro.throw(SynchronousAbort()) on the
+   coroutine object suspended at k (Tree.co_throw). *)
+Theorem blocking : forall fixd w s c ev0 s0 y k,
+  run s c = (ev0, s0, SSusp y k) ->
+  abort_terminates s0 k ->
+  let t := co_throw KCoro (Suspended k) s0 SynchronousAbort in
+  let r := await_sync fixd w s c in
+  sr_events r = ev0 ++ r_events t /\ sr_store r = r_store t /\
+  sr_obj r = Finished /\ r_obj t = Finished /\
+  match r_out t with
+  | ORaise e => sr_out r = SySyncError false (Some e)
+  | OReturn _ => sr_out r = SySyncError true None
+  | OYield _ => False
+  end.
+Proof.
+  intros fixd w s c ev0 s0 y k Hr Hd. unfold await_sync, abort_terminates in *. rewrite Hr.
+  unfold cs_throw1. simpl.
+  destruct (run s0 (k (Throw SynchronousAbort))) as [[ev1 s1] st1] eqn:H1.
+  destruct st1 as [v|e|y2 k2]; try contradiction; simpl; rewrite app_nil_r;
+    repeat split; reflexivity.
+Qed.
+
+Example blocking_ex :
+  let body := Eff (ELog 1) (await_ KGen (tok (VInt 3)) (fun _ => Ret VNone)
+                              (fun e => Eff (ELog 2) (Raise e))) in   (* try: await tok(3) finally: log 2 *)
+  let r := await_sync true world0 [] body in
+  sr_out r = SySyncError false (Some SynchronousAbort) /\
+  sr_events r = [ELog 1; ELog 2] /\ sr_obj r = Finished.
+Proof. repeat split; reflexivity. Qed.
+
+(* outside the domain: the body swallowed the abort and suspended again.
+   SynchronousError is chained to RuntimeError("coroutine ignored
+   SynchronousAbort"), the coroutine is closed natively (Tree.co_close), and
+   whatever close() raises replaces the SynchronousError *)
+Theorem blocking_outside_domain : forall fixd w s c ev0 s0 y k ev1 s1 y2 k2,
+  run s c = (ev0, s0, SSusp y k) ->
+  run s0 (k (Throw SynchronousAbort)) = (ev1, s1, SSusp y2 k2) ->
+  let cl := co_close KCoro (Suspended k2) s1 in
+  let r := await_sync fixd w s c in
+  sr_events r = ev0 ++ ev1 ++ r_events cl /\ sr_store r = r_store cl /\
+  sr_obj r = r_obj cl /\
+  sr_out r = match r_out cl with
+             | ORaise e => SyCloseRaised e
+             | _ => SySyncError false (Some rt_ignored_abort)
+             end.
+Proof.
+  intros fixd w s c ev0 s0 y k ev1 s1 y2 k2 Hr H1. unfold await_sync. rewrite Hr.
+  unfold cs_throw1. rewrite H1. simpl.
+  destruct (run s1 (k2 (Throw GeneratorExit))) as [[ev2 s2] st2] eqn:H2.
+  destruct st2 as [v|e|y3 k3]; simpl; try (repeat split; reflexivity).
+  destruct (is_genexit e); simpl; repeat split; reflexivity.
+Qed.
+
+(* ---------------------------------------------------- C05_object_untouched *)
+Lemma set_flag_clear_id : forall w f g,
+  f_flag (w f) = false -> set_flag (set_flag w f true) f false g = w g.
+Proof.
+  intros w f g H. unfold set_flag. destruct (Z.eqb g f) eqn:E; auto.
+  apply Z.eqb_eq in E; subst g. simpl.
+  destruct (w f) as [d c fl]; simpl in *. subst fl. reflexivity.
+Qed.
+
+(* receiving what the body yielded, repaired code: the world is as before *)
+Lemma capture_arm_id : forall w y g,
+  (forall f, y = VFut f -> f_flag (w f) = false) ->
+  fst (capture true (arm w y) y) g = w g.
+Proof.
+  intros w y g H. destruct y as [|z|f]; try reflexivity.
+  unfold capture, arm, unblock.
+  assert (E : f_flag (set_flag w f true f) = true)
+    by (unfold set_flag; rewrite Z.eqb_refl; reflexivity).
+  rewrite E. simpl. apply set_flag_clear_id. auto.
+Qed.
+
+Theorem object_untouched : forall w s c ev0 s0 y k,
+  run s c = (ev0, s0, SSusp y k) ->
+  abort_terminates s0 k ->
+  (forall f, y = VFut f -> f_flag (w f) = false) ->
+  forall g, sr_world (await_sync true w s c) g = w g.
+Proof.
+  intros w s c ev0 s0 y k Hr Hd Hw g. unfold await_sync, abort_terminates in *. rewrite Hr.
+  unfold cs_throw1.
+  destruct (run s0 (k (Throw SynchronousAbort))) as [[ev1 s1] st1] eqn:H1.
+  destruct st1 as [v|e|y2 k2]; try contradiction; simpl; apply capture_arm_id; assumption.
+Qed.
+
+Example object_untouched_ex :
+  (* try: await F0  finally: log 2   -- with a callback already registered on F0 *)
+  let body := await_ KGen (tok (VFut 0)) (fun _ => Ret VNone) (fun e => Eff (ELog 2) (Raise e)) in
+  let w := fun g : Z => if Z.eqb g 0 then mkfut false 3 false else fut0 in
+  let r := await_sync true w [] body in
+  sr_out r = SySyncError false (Some SynchronousAbort) /\ sr_world r 0%Z = mkfut false 3 false /\
+  f_flag (sr_world (await_sync false w [] body) 0%Z) = true.
+Proof. repeat split; reflexivity. Qed.
+
+(* in particular an ordinary Task can await the future afterwards, and is then
+   registered on it exactly as if await_sync had never happened *)
+Theorem object_awaitable_later : forall w s c ev0 s0 f k,
+  run s c = (ev0, s0, SSusp (VFut f) k) ->
+  abort_terminates s0 k ->
+  f_flag (w f) = false ->
+  let w' := sr_world (await_sync true w s c) in
+  awaitable_later w' f = true /\
+  forall g, fst (task_await_step w' f) g = fst (task_await_step w f) g.
+Proof.
+  intros w s c ev0 s0 f k Hr Hd Hw w'.
+  assert (Hu : forall g, w' g = w g).
+  { intro g. unfold w'. eapply object_untouched; eauto.
+    intros f' Hf'. inversion Hf'; subst; assumption. }
+  clearbody w'. unfold awaitable_later, task_await_step.
+  assert (Hf : f_flag (w' f) = false) by (rewrite Hu; exact Hw).
+  rewrite Hf, Hw. simpl. split; auto.
+  intro g. destruct (Z.eqb g f) eqn:E; auto.
+  apply Z.eqb_eq in E; subst g. rewrite Hu. reflexivity.
+Qed.
+
+(* also outside the domain, as long as the body gives in to close(): the second
+   object it suspended on is left untouched as well *)
+Theorem object_untouched_second : forall w s c ev0 s0 y k ev1 s1 y2 k2,
+  run s c = (ev0, s0, SSusp y k) ->
+  run s0 (k (Throw SynchronousAbort)) = (ev1, s1, SSusp y2 k2) ->
+  no_susp (snd (run s1 (k2 (Throw GeneratorExit)))) ->
+  (forall f, f_flag (w f) = false) ->
+  forall g, sr_world (await_sync true w s c) g = w g.
+Proof.
+  intros w s c ev0 s0 y k ev1 s1 y2 k2 Hr H1 H2 Hw g. unfold await_sync. rewrite Hr.
+  unfold cs_throw1. rewrite H1. simpl.
+  destruct (run s1 (k2 (Throw GeneratorExit))) as [[ev2 s2] st2] eqn:H3. simpl in H2.
+  assert (Hc : forall g', fst (capture true (arm w y) y) g' = w g').
+  { intro g'. apply capture_arm_id. intros; apply Hw. }
+  destruct st2 as [v|e|y3 k3]; try contradiction; simpl;
+    (rewrite capture_arm_id; [apply Hc|]); intros f _; rewrite Hc; apply Hw.
+Qed.
+
+(* the code before the repair: the flag stays set, the future is unusable *)
+Theorem refuted_before_fix : exists (c : coro) (f : Z) (k : input -> coro),
+  run [] c = ([], [], SSusp (VFut f) k) /\ abort_terminates [] k /\
+  f_flag (world0 f) = false /\
+  let w' := sr_world (await_sync false world0 [] c) in
+  f_flag (w' f) = true /\ f_done (w' f) = false /\
+  awaitable_later w' f = false /\
+  snd (task_await_step w' f) = Some rt_await_no_future.
+Proof.
+  exists (tok (VFut 0)), 0%Z,
+         (fun i => match i with Send v => Ret v | Throw e => Raise e end).
+  repeat split; exact I.
+Qed.
+
+(* ------------------------------------------------------------- C05_aiter *)
+(* The reference is the native loop  `async for x in it: <record x>`  run as a
+   tree (AwaitSync.async_for). *)
 Lemma await_sync_value : forall fixd w s c evs s' v,
   run s c = (evs, s', SRet v) ->
   await_sync fixd w s c = mksync evs (SyValue v) Finished s' w.
 Proof. intros fixd w s c evs s' v H. unfold await_sync. rewrite H. reflexivity. Qed.
+
+Lemma await_sync_raise : forall fixd w s c evs s' e,
+  run s c = (evs, s', SRaise e) ->
+  await_sync fixd w s c = mksync evs (SyRaise (pep479 KCoro e)) Finished s' w.
+Proof. intros fixd w s c evs s' e H. unfold await_sync. rewrite H. reflexivity. Qed.
+
+Lemma aiter_sync_cons : forall hlp fixd w s c rest take,
+  aiter_sync_with hlp fixd w s (c :: rest) (S take) =
+  let r := await_sync fixd w s (hlp c) in
+  match sr_out r with
+  | SyValue v =>
+      let r' := aiter_sync_with hlp fixd (sr_world r) (sr_store r) rest take in
+      mkaiter (sr_events r ++ item v :: ai_events r') (ai_end r') (ai_store r')
+              (ai_world r') (ai_obj r')
+  | SyRaise StopAsyncIteration
+  | SyCloseRaised StopAsyncIteration =>
+      mkaiter (sr_events r) AEnd (sr_store r) (sr_world r) (sr_obj r)
+  | o => mkaiter (sr_events r) (ARaise o) (sr_store r) (sr_world r) (sr_obj r)
+  end.
+Proof. reflexivity. Qed.
+
+Theorem aiter_native : forall fixd anexts w s evs s' st take,
+  run s (async_for anexts) = (evs, s', st) ->
+  no_susp st ->
+  (length anexts < take)%nat ->
+  let r := aiter_sync fixd w s anexts take in
+  ai_events r = evs /\ ai_store r = s' /\ ai_world r = w /\
+  ai_end r = match st with
+             | SRaise e => ARaise (SyRaise e)
+             | _ => AEnd
+             end.
+Proof.
+  intros fixd anexts. unfold aiter_sync.
+  induction anexts as [|c rest IH]; intros w s evs s' st take Hr Hn Ht.
+  - simpl in Hr. inversion Hr; subst. destruct take as [|take]; [simpl in Ht; lia|].
+    simpl. repeat split; reflexivity.
+  - destruct take as [|take]; [simpl in Ht; lia|]. simpl in Ht.
+    rewrite aiter_sync_cons. cbv zeta. simpl in Hr.
+    destruct (run s c) as [[e1 s1] st1] eqn:Hc.
+    assert (Hs : st1 = snd (run s c)) by (rewrite Hc; reflexivity).
+    destruct st1 as [v|e|y k].
+    + (* the __anext__ coroutine returns v *)
+      rewrite (run_await_ret _ _ _ _ _ _ _ _ Hc) in Hr. simpl in Hr.
+      destruct (run s1 (async_for rest)) as [[e2 s2] st2] eqn:Hrest.
+      inversion Hr; subst evs s' st. clear Hr.
+      change (helper c) with (native_await c). rewrite (await_sync_native_await fixd w s c) by (rewrite <- Hs; exact I).
+      rewrite (await_sync_value fixd w _ _ _ _ _ Hc). simpl.
+      destruct (IH w s1 e2 s2 st2 take Hrest Hn ltac:(lia)) as (E1 & E2 & E3 & E4).
+      rewrite E1, E2, E3, E4. repeat split; reflexivity.
+    + (* it raises *)
+      rewrite (run_await_raise _ _ _ _ _ _ _ _ Hc) in Hr.
+      change (helper c) with (native_await c). rewrite (await_sync_native_await fixd w s c) by (rewrite <- Hs; exact I).
+      rewrite (await_sync_raise fixd w _ _ _ _ _ Hc). simpl.
+      destruct (pep479 KCoro e) eqn:He; simpl in Hr; inversion Hr; subst; simpl;
+        repeat split; try reflexivity; rewrite app_nil_r; reflexivity.
+    + (* it suspends: excluded *)
+      destruct (run_await_susp KCoro c (fun v => Eff (item v) (async_for rest))
+                  (fun e => match e with StopAsyncIteration => Ret VNone | _ => Raise e end)
+                  s _ _ _ _ Hc) as [k' Hk'].
+      rewrite Hk' in Hr. inversion Hr; subst. contradiction.
+Qed.
+
+Example aiter_native_ex :
+  let it := [Eff (ELog 1) (Ret (VInt 1)); Ret (VInt 2); Raise StopAsyncIteration; Ret (VInt 9)] in
+  let r := aiter_sync true world0 [] it 10 in
+  ai_events r = [ELog 1; item (VInt 1); item (VInt 2)] /\ ai_end r = AEnd.
+Proof. repeat split; reflexivity. Qed.
+
+(* an __anext__ that suspends: the values so far have been handed out, then
+   await_sync's exception leaves the generator *)
+Theorem aiter_blocking : forall fixd w s c rest take,
+  (match sr_out (await_sync fixd w s (helper c)) with
+   | SyValue _ | SyRaise StopAsyncIteration | SyCloseRaised StopAsyncIteration => False
+   | _ => True
+   end) ->
+  let r0 := await_sync fixd w s (helper c) in
+  let r := aiter_sync fixd w s (c :: rest) (S take) in
+  ai_end r = ARaise (sr_out r0) /\ ai_events r = sr_events r0 /\ ai_obj r = sr_obj r0.
+Proof.
+  intros fixd w s c rest take H. unfold aiter_sync. rewrite aiter_sync_cons. cbv zeta.
+  destruct (sr_out (await_sync fixd w s (helper c))) as [v|e|b o|e] eqn:Ho; try contradiction;
+    try (destruct e; try contradiction); simpl; repeat split; reflexivity.
+Qed.
+
+(* -------------------------------- CoroStart and the flag (shared with C01) *)
+(* whatever a (repaired) CoroStart captures, no flag is left set *)
+Theorem capture_flag_invariant : forall w s c,
+  (forall f, f_flag (w f) = false) ->
+  let '(_, _, _, _, w') := csf_start true w s c in
+  forall g, w' g = w g.
+Proof.
+  intros w s c Hw. unfold csf_start.
+  destruct (run s c) as [[evs s'] st]. destruct st as [v|e|y k]; auto.
+  destruct (capture true (arm w y) y) as [w' b] eqn:Hc. intro g.
+  change w' with (fst (w', b)). rewrite <- Hc. apply capture_arm_id. intros; apply Hw.
+Qed.
+
+(* ... and when __await__ hands the captured object to the Task, the Task
+   finds it as Future.__await__ yielded it *)
+Theorem rearm_for_task : forall w s c evs s' y k b w',
+  (forall f, f_flag (w f) = false) ->
+  csf_start true w s c = (evs, s', SSusp y k, b, w') ->
+  snd (task_receive (csf_first_yield w' y b) y) = None.
+Proof.
+  intros w s c evs s' y k b w' Hw H. unfold csf_start in H.
+  destruct (run s c) as [[evs0 s0] st]. destruct st as [v|e|y0 k0]; try discriminate.
+  destruct (capture true (arm w y0) y0) as [w1 b1] eqn:Hc. inversion H; subst. clear H.
+  destruct y as [|z|f].
+  - inversion Hc; subst. reflexivity.
+  - inversion Hc; subst. reflexivity.
+  - unfold capture, arm, unblock in Hc.
+    assert (E : f_flag (set_flag w f true f) = true)
+      by (unfold set_flag; rewrite Z.eqb_refl; reflexivity).
+    rewrite E in Hc. inversion Hc; subst.
+    unfold csf_first_yield, arm, task_receive.
+    assert (E2 : f_flag (set_flag (set_flag (set_flag w f true) f false) f true f) = true)
+      by (unfold set_flag; rewrite Z.eqb_refl; reflexivity).
+    rewrite E2. reflexivity.
+Qed.
